@@ -34,23 +34,37 @@ func genericTree(n parsley.Node) []interface{} {
 }
 
 // fileAfter places content after the given preceding files
-func fileAfter(content []byte, pre [][]byte) (*text.File, *parsley.FileSet, int) {
+// variant bit 0: the reader is created BEFORE the file is added to the set (as the repository's own benchmark does);
+// variant bit 1: a position inside an earlier file is rendered before the parse (history on the same file set)
+func fileAfter(content []byte, pre [][]byte, variant int) (*text.File, *parsley.FileSet, *text.Reader, int) {
 	fs := parsley.NewFileSet()
 	for i, p := range pre {
 		fs.AddFile(text.NewFile(fmt.Sprintf("pre%d", i), p))
 	}
 	f := text.NewFile("f", content)
+	var rd *text.Reader
+	if variant&1 == 1 {
+		rd = text.NewReader(f)
+	}
 	fs.AddFile(f)
-	return f, fs, int(f.Pos(0))
+	if rd == nil {
+		rd = text.NewReader(f)
+	}
+	if variant&2 == 2 && len(pre) > 0 {
+		_ = fs.Position(parsley.Pos(1)).String()
+	}
+	return f, fs, rd, int(f.Pos(0))
 }
+
+var placeVariant int
 
 func placeObserve(p parsley.Parser, content []byte, pre [][]byte, eval bool) (J, int) {
 	o := J{"ok": false, "trees": []interface{}{}, "err": []interface{}{}, "text": "", "val": "", "calls": 0}
 	base := 0
 	if m := safely(func() {
-		f, fs, b := fileAfter(content, pre)
+		f, fs, rd, b := fileAfter(content, pre, placeVariant)
 		base = b
-		ctx := parsley.NewContext(fs, text.NewReader(f))
+		ctx := parsley.NewContext(fs, rd)
 		node, _, err := p.Parse(ctx, data.EmptyIntMap, f.Pos(0))
 		o["calls"] = ctx.CallCount()
 		if err != nil {
@@ -64,8 +78,8 @@ func placeObserve(p parsley.Parser, content []byte, pre [][]byte, eval bool) (J,
 			}
 			o["trees"] = tr
 		}
-		f2, fs2, _ := fileAfter(content, pre)
-		ctx2 := parsley.NewContext(fs2, text.NewReader(f2))
+		_, fs2, rd2, _ := fileAfter(content, pre, placeVariant)
+		ctx2 := parsley.NewContext(fs2, rd2)
 		if eval {
 			v, e2 := parsley.Evaluate(ctx2, p)
 			if e2 != nil {
@@ -174,6 +188,7 @@ func placeMain(mode string, a args) {
 	r := rand.New(rand.NewSource(int64(a.num("seed", 1))))
 	wls := placeWorkloads()
 	emit := func(wl string, p parsley.Parser, eval bool, content []byte, pre [][]byte) {
+		placeVariant = r.Intn(4)
 		oa, ba := placeObserve(p, content, nil, eval)
 		ob, bb := placeObserve(p, content, pre, eval)
 		pj := [][]int{}
@@ -269,6 +284,7 @@ func placeMain(mode string, a args) {
 		t := &tracer{quiet: true, budget: 1 << 30}
 		ps := build(G, t)
 		pre := randPre()
+		placeVariant = r.Intn(4)
 		oa, ba := placeObserve(ps[root-1], bytesOf(w), nil, false)
 		ob, bb := placeObserve(ps[root-1], bytesOf(w), pre, false)
 		pj := [][]int{}
